@@ -418,6 +418,11 @@ def run_reader_cell(ctx, fam, cell, given):
     else:
         ctx.outcome(("ok", digest(snap(got[1]))))
 
+    # 0. loads_all(otype=ensemble): no class-level counterpart exists and load_all documents the
+    #    same request as a ValueError - any refusal is fine, whatever else the cell asks for
+    if cell["func"] == "loads_all" and oclass(cell["otype"]) == "ensemble" and got[0] == "exc":
+        return
+
     # 1. a documented error condition applies
     if errs:
         if got[0] == "ok":
@@ -464,10 +469,12 @@ def run_reader_cell(ctx, fam, cell, given):
             viol("name-override-ignored", f"name={given!r} was passed, the result is named {sorted(set(map(str, nm)))}")
     if snap(got[1], with_name=not bad_name) != snap(exp[1], with_name=not bad_name):
         g, e = got[1], exp[1]
-        if type(g) is not type(e) or (isinstance(g, list) and [type(x) for x in g] != [type(x) for x in e]):
+        if type(g) is not type(e):
             sym = "result-type-differs-from-class-method"
         elif isinstance(g, list) and len(g) != len(e):
             sym = "result-length-differs-from-class-method"
+        elif isinstance(g, list) and [type(x) for x in g] != [type(x) for x in e]:
+            sym = "result-type-differs-from-class-method"
         elif snap(g, with_name=False) == snap(e, with_name=False):
             sym = "name-differs-from-class-method"
         else:
